@@ -236,8 +236,8 @@ def run(run, replay=None):
             kind = k % 4
             if kind == 0 and seeks:
                 z['ev'][rng.choice(seeks)]['pos'] += 1          # sought back one byte short
-            elif kind == 1 and seeks:
-                del z['ev'][rng.choice(seeks)]                   # no seek back at all
+            elif kind == 1 and [n for n in seeks if z['ev'][n]['off'] != 0]:
+                del z['ev'][rng.choice([n for n in seeks if z['ev'][n]['off'] != 0])]     # bytes read past the delimiter are not given back
             elif kind == 2 and yields:
                 n = rng.choice(yields)
                 z['ev'][n], z['ev'][n + 1] = z['ev'][n + 1], z['ev'][n]   # read on before yielding
